@@ -59,6 +59,13 @@ VARIABLES
   snote,        \* Seq([File -> LineMap]) aligned with stash: attribution saved with a stash
   isnap,        \* ghost: [0..MaxCommit -> [File -> Seq(Line)]] work-tree content when INITIAL[b] was written
   blame,        \* [File -> LineMap]  git-ai blame of HEAD for files whose work tree copy equals HEAD
+  storage,      \* prompt storage mode of the run: "default" | "local" | "notes"
+  leak,         \* [text, secret : BOOLEAN]: does any object reachable from the notes ref (its whole history)
+                \* hold conversation text / an unmasked credential-like token
+  stats,        \* [1..MaxCommit -> record]  `git-ai stats <commit> --json` and git's own numstat, as logged
+  gblame,       \* [File -> Seq(<<commit, file, line>>)] what plain `git blame HEAD` says about each line of the
+                \* files whose work tree copy equals HEAD: originating commit, path there, line number there
+  fmtok,        \* BOOLEAN: every blame output format agreed with git blame / with the JSON output (harness-compared)
   tnotes,       \* notes of the TWIN execution of the same behaviour (other mode / configuration / code path)
   tblame,       \* blame of the twin
   l,            \* trace position
@@ -68,7 +75,7 @@ VARIABLES
   hist          \* gen mode: replay script (hidden by VIEW)
 
 gitvars == <<wt, idx, tree, par, ckind, nc, head, tip2, side, stash, truth, nu, der, dirty, ops>>
-aivars  == <<wl, ini, isnap, notes, snote, blame, tnotes, tblame>>
+aivars  == <<wl, ini, isnap, notes, snote, blame, tnotes, tblame, storage, leak, fmtok, gblame, stats>>
 vars    == <<gitvars, aivars, l, viol, drift, taint, hist>>
 view    == <<gitvars, wl, ini, isnap, notes, snote, blame, taint>>
 
@@ -261,8 +268,10 @@ CkResult(D, W, I, IS, ht, work, index, kind, a, reported, pre) ==
    W, I = working log / INITIAL of the parent base AFTER the pre-commit checkpoint;
    tp, tc = parent tree and new commit tree of the file; work = work tree copy *)
 
-SplitFile(D, Wf, If, tp, tc, work) ==
-  LET va   == IF Wf.vaset THEN Wf.va ELSE If
+SplitFile(D, Wf, If, isf, tp, tc, work) ==
+  LET va   == IF Wf.vaset THEN Wf.va
+              ELSE IF "initial_is_line_numbers_only" \in D THEN If
+              ELSE Trim([n \in 1..Len(work) |-> IF work[n][1] \in UidsOf(isf) THEN At(If, PosOfUid(isf, work[n][1])) ELSE H])
       inPS == Wf.touched \/ If # <<>>
       com  == IF inPS THEN Added(tp, tc) ELSE {}
       un0  == IF inPS THEN Added(tc, work) ELSE {}
@@ -304,12 +313,28 @@ MkNote(files, sess) == [has |-> TRUE, files |-> files, prompts |-> SessionsIn(fi
 -----------------------------------------------------------------------------
 (* blame overlay (first-parent history; merges come with the rewrite vocabulary) *)
 
+\* the commit (and the path it had there) that introduced line x, seen from commit c where it sits in file f:
+\* walk first parents while the parent holds the line, in whatever file (uids are unique, so this follows renames)
+FileHolding(t, x) == IF \E g \in File : x \in LinesOf(t[g]) THEN CHOOSE g \in File : x \in LinesOf(t[g]) ELSE "none"
 RECURSIVE Origin(_, _, _, _, _)
-Origin(T, P, c, f, x) == IF P[c] # 0 /\ x \in LinesOf(T[P[c]][f]) THEN Origin(T, P, P[c], f, x) ELSE c
+Origin(T, P, c, f, x) ==
+  IF P[c] # 0 /\ FileHolding(T[P[c]], x) # "none"
+  THEN Origin(T, P, P[c], FileHolding(T[P[c]], x), x) ELSE <<c, f>>
 BlameLine(N, T, P, c, f, n) ==
   LET x == T[c][f][n]
       o == Origin(T, P, c, f, x)
-  IN  At(N[o].files[f], PosOfLine(T[o][f], x))
+  IN  At(N[o[1]].files[o[2]], PosOfLine(T[o[1]][o[2]], x))
+GitBlameOf(T, P, c, W) ==
+  [f \in File |-> IF c # 0 /\ W[f] = T[c][f]
+                  THEN [n \in 1..Len(T[c][f]) |->
+                          LET o == Origin(T, P, c, f, T[c][f][n])
+                          IN <<o[1], o[2], PosOfLine(T[o[1]][o[2]], T[c][f][n])>>]
+                  ELSE <<>>]
+\* the overlay proper: git blame's answer per line, looked up in the notes
+Overlay(N, GB) ==
+  [f \in File |-> Trim([n \in 1..Len(GB[f]) |->
+                     IF GB[f][n][1] \in 1..MaxCommit /\ GB[f][n][2] \in File
+                     THEN At(N[GB[f][n][1]].files[GB[f][n][2]], GB[f][n][3]) ELSE H])]
 BlameOf(N, T, P, c, W) ==
   [f \in File |-> IF c # 0 /\ W[f] = T[c][f]
                   THEN Trim([n \in 1..Len(T[c][f]) |-> BlameLine(N, T, P, c, f, n)]) ELSE <<>>]
@@ -324,7 +349,8 @@ Made(c)     == c \in 1..nc
 \* "commit_lossy": ... after commands that may legitimately drop it (hard reset, path checkout, restore)
 PlainCommit(c) == Made(c) /\ ckind[c] = "commit"
 CarryCommit(c) == Made(c) /\ ckind[c] \in {"commit", "commit_carry", "rebase", "cherry", "amend", "squash"}
-NewUid(c, f, n)   == tree[c][f][n][1] \notin UidsOf(TreeOf(par[c])[f])
+\* new to the commit: the line is in no file of the parent (a renamed file's lines are not new)
+NewUid(c, f, n)   == \A g \in File : tree[c][f][n][1] \notin UidsOf(TreeOf(par[c])[g])
 GitAdded(c, f, n) == tree[c][f][n] \notin LinesOf(TreeOf(par[c])[f])
 \* the authors that ever wrote (part of) the line: its own and those of the lines it was derived from by "mod"
 RECURSIVE Writers(_)
@@ -382,6 +408,40 @@ Twin_UpToCumulative ==
                      /\ (a = H \/ b = H)
                      /\ (IF a = H THEN b ELSE a) \in Writers(tree[c][f][n][1])
 
+\* C09: AI blame = git blame + notes: each line of HEAD is reported for the session the note of its originating
+\* commit lists at the line's original number under the path the file had there; fmt carries the harness's
+\* comparison of every output format with git's own blame (commit per line) and of JSON with the readable output
+C09_Overlay == blame = Overlay(notes, gblame)
+C09_Formats == fmtok
+
+\* C19: the numbers of `git-ai stats` add up and agree with the note and with git's own diff.
+\* The model counts, from trees and notes, the lines a commit added and those its note gives to a session.
+NoStats == [has |-> FALSE]
+RECURSIVE SumSeq(_)
+SumSeq(q) == IF q = <<>> THEN 0 ELSE Head(q) + SumSeq(Tail(q))
+\* the files in some fixed order
+FileSeq == CHOOSE q \in [1..Cardinality(File) -> File] : \A a, b \in 1..Cardinality(File) : a # b => q[a] # q[b]
+AddedCount(c)    == SumSeq([i \in 1..Cardinality(File) |->
+                       Cardinality(Added(TreeOf(par[c])[FileSeq[i]], tree[c][FileSeq[i]]))])
+DeletedCount(c)  == SumSeq([i \in 1..Cardinality(File) |->
+                       Cardinality(Added(tree[c][FileSeq[i]], TreeOf(par[c])[FileSeq[i]]))])
+AcceptedCount(c) == SumSeq([i \in 1..Cardinality(File) |->
+                       Cardinality({ k \in Added(TreeOf(par[c])[FileSeq[i]], tree[c][FileSeq[i]]) :
+                                       NoteAt(c, FileSeq[i], k) # H })])
+C19_Stats ==
+  \A c \in 1..MaxCommit : (Made(c) /\ stats[c].has) =>
+    LET st == stats[c] IN
+    /\ st.added = st.numstat_added /\ st.deleted = st.numstat_deleted        \* totals = git's numstat
+    /\ st.added = AddedCount(c) /\ st.deleted = DeletedCount(c)              \* ... = the diff of the trees
+    /\ st.ai_accepted = AcceptedCount(c)                                     \* accepted = note /\ added lines
+    /\ st.human + st.ai_accepted = st.added
+    /\ st.ai = st.ai_accepted + st.mixed /\ st.ai <= st.added
+    /\ st.tools_ai_accepted = st.ai_accepted /\ st.tools_ai = st.ai /\ st.tools_mixed = st.mixed
+
+\* C08: conversation text reaches the shared notes only when the user opted in, and then with credentials masked
+C08_NoTranscript == storage # "notes" => ~leak.text
+C08_Masked       == ~leak.secret
+
 \* C05: structural well-formedness as projected (flags computed by the independent parser) + line bounds
 C05_WellFormed ==
   \A c \in 1..MaxCommit : (Made(c) /\ notes[c].has) =>
@@ -393,7 +453,8 @@ C05_WellFormed ==
 Clean(p) == taint # {} \/ p
 
 PropertyNames == {"C01_Exact", "C02_Carried", "C01_OnlyAdded", "C03_Notes", "C03_Blame", "C05_WellFormed",
-                  "Twin_Obs", "Twin_Exact", "Twin_Blame", "Twin_UpToCumulative", "Twin_Equiv"}
+                  "Twin_Obs", "Twin_Exact", "Twin_Blame", "Twin_UpToCumulative", "Twin_Equiv",
+                  "C08_NoTranscript", "C08_Masked", "C09_Overlay", "C09_Formats", "C19_Stats"}
 Holds(p) == CASE p = "C01_Exact" -> C01_Exact
               [] p = "C02_Carried" -> C02_Carried
               [] p = "C01_OnlyAdded" -> C01_OnlyAdded
@@ -405,6 +466,11 @@ Holds(p) == CASE p = "C01_Exact" -> C01_Exact
               [] p = "Twin_Blame" -> Twin_Blame
               [] p = "Twin_UpToCumulative" -> Twin_UpToCumulative
               [] p = "Twin_Equiv" -> Twin_Equiv
+              [] p = "C08_NoTranscript" -> C08_NoTranscript
+              [] p = "C08_Masked" -> C08_Masked
+              [] p = "C09_Overlay" -> C09_Overlay
+              [] p = "C09_Formats" -> C09_Formats
+              [] p = "C19_Stats" -> C19_Stats
 
 -----------------------------------------------------------------------------
 (* Trace plumbing *)
@@ -444,6 +510,8 @@ AiAdopt(g, cwl, cini, cnotes, fired) ==
      THEN /\ wl' = cwl /\ ini' = cini /\ notes' = cnotes
           /\ blame' = BlameOf(cnotes, g.tree, g.par, g.head, g.wt)
           /\ tnotes' = cnotes /\ tblame' = BlameOf(cnotes, g.tree, g.par, g.head, g.wt)
+          /\ leak' = leak /\ storage' = storage /\ fmtok' = TRUE
+          /\ gblame' = GitBlameOf(g.tree, g.par, g.head, g.wt) /\ stats' = stats
           /\ drift' = drift /\ taint' = taint \cup fired
      ELSE LET ownl == [b \in 0..MaxCommit |->
                            [ent |-> [f \in File |-> [Ev.obs.wl[b + 1].ent[f] EXCEPT !.by = SetOf(@)]]]]
@@ -452,6 +520,8 @@ AiAdopt(g, cwl, cini, cnotes, fired) ==
           IN /\ wl' = ownl /\ ini' = oini /\ notes' = onot
              /\ blame' = Ev.obs.blame
              /\ tnotes' = [c \in 1..MaxCommit |-> ObsNote(Ev.twin.notes[c])] /\ tblame' = Ev.twin.blame
+             /\ leak' = Ev.obs.leak /\ storage' = storage /\ fmtok' = Ev.obs.fmtok /\ gblame' = Ev.obs.gblame
+             /\ stats' = From1(Ev.obs.stats)
              /\ drift' = drift \cup (IF ownl # cwl THEN {<<l, "wl">>} ELSE {})
                                \cup (IF oini # cini THEN {<<l, "ini">>} ELSE {})
                                \cup (IF onot # cnotes THEN {<<l, "notes">>} ELSE {})
@@ -560,6 +630,16 @@ CkptRepeat ==
   /\ UNCHANGED <<truth, nu, der, dirty, stash, snote, ops>>
   /\ Step2([a |-> "CkptRepeat"], StutterViol)
 
+\* ---- git mv f g   (rename without editing; work tree and index)
+Mv(f, g) ==
+  /\ Guard(f # g /\ wt[f] # EmptyC /\ wt[g] = EmptyC /\ idx[g] = EmptyC /\ HeadTree[g] = EmptyC
+           /\ wt[f] = idx[f] /\ NoAgentDirty /\ dirty[f] = None)
+  /\ LET ren(t) == [h \in File |-> IF h = g THEN t[f] ELSE IF h = f THEN EmptyC ELSE t[h]]
+         gg == NG(ren(wt), ren(idx), tree, par, ckind, nc, head)
+     IN GitAdopt(gg) /\ AiSame(gg)
+  /\ UNCHANGED <<truth, nu, der, dirty, stash, snote, ops>>
+  /\ Step([a |-> "Mv", f |-> f, g |-> g])
+
 \* ---- staging (not hooked by git-ai): the index copy of f becomes c
 Stage(f, c, kind) ==
   /\ Guard(idx[f] # c /\ NoAgentDirty)
@@ -599,7 +679,7 @@ CommitIdx(mode, F) ==
 \* pre-commit human checkpoint followed by the split; returns [nf, ni]
 CommitMech(D, b, nt, preIdx) ==
   LET W1 == CkResult(D, wl[b], ini[b], isnap[b], TreeOf(b), wt, preIdx, "human", H, {}, TRUE)
-      sp == [f \in File |-> SplitFile(D, W1.ent[f], ini[b][f], TreeOf(b)[f], nt[f], wt[f])]
+      sp == [f \in File |-> SplitFile(D, W1.ent[f], ini[b][f], isnap[b][f], TreeOf(b)[f], nt[f], wt[f])]
   IN  [nf |-> [f \in File |-> sp[f].note], ni |-> [f \in File |-> sp[f].ini],
        sess |-> WLsess(W1) \cup SessionsIn(ini[b])]
 
@@ -611,7 +691,12 @@ Commit(mode, F) ==
       nix == CommitIdx(mode, F)
       c   == nc + 1
       b   == head
-      op(D) == CommitMech(D, b, nt, IF mode = "all" THEN wt ELSE idx)
+      \* the index as the pre-commit checkpoint sees it ("paths": new files are staged first, as `git commit -- p`
+      \* cannot name an untracked file)
+      preIdx == CASE mode = "all" -> wt
+                  [] mode = "staged" -> idx
+                  [] OTHER -> [f \in File |-> IF f \in F /\ idx[f] = EmptyC /\ HeadTree[f] = EmptyC THEN wt[f] ELSE idx[f]]
+      op(D) == CommitMech(D, b, nt, preIdx)
   IN
   /\ Guard(c <= MaxCommit /\ nt # HeadTree /\ NoAgentDirty)
   /\ LET res == op(Dev)
@@ -966,7 +1051,8 @@ InitCommon ==
   /\ ini = [b \in 0..MaxCommit |-> NoMaps]
   /\ isnap = [b \in 0..MaxCommit |-> AllEmpty]
   /\ notes = [c \in 1..MaxCommit |-> IF InitKind = "base" /\ c = 1 THEN BaseNote ELSE NoNote]
-  /\ blame = NoMaps /\ tblame = NoMaps
+  /\ blame = NoMaps /\ tblame = NoMaps /\ storage = "notes" /\ leak = [text |-> FALSE, secret |-> FALSE] /\ fmtok = TRUE
+  /\ gblame = NoMaps /\ stats = [c \in 1..MaxCommit |-> NoStats]
   /\ tnotes = [c \in 1..MaxCommit |-> IF InitKind = "base" /\ c = 1 THEN BaseNote ELSE NoNote]
   /\ l = 1 /\ viol = {} /\ drift = {} /\ taint = {} /\ hist = <<>>
 
@@ -996,6 +1082,7 @@ Next ==
      \/ GenCommit
      \/ GenDestructive
      \/ GenRewrite
+     \/ "mv" \in Alphabet /\ \E f \in File, g \in File : Mv(f, g)
      \/ "readonly" \in Alphabet /\ \E c \in {"status", "log", "diff"} : ReadOnly(c)
      \/ "ckpt_repeat" \in Alphabet /\ CkptRepeat
 
@@ -1027,7 +1114,8 @@ TrReset ==
   /\ ini' = [b \in 0..MaxCommit |-> NoMaps]
   /\ isnap' = [b \in 0..MaxCommit |-> AllEmpty]
   /\ notes' = [c \in 1..MaxCommit |-> IF Ev.init = "base" /\ c = 1 THEN BaseNote ELSE NoNote]
-  /\ blame' = NoMaps /\ tblame' = NoMaps
+  /\ blame' = NoMaps /\ tblame' = NoMaps /\ storage' = Ev.storage /\ leak' = [text |-> FALSE, secret |-> FALSE] /\ fmtok' = TRUE
+  /\ gblame' = NoMaps /\ stats' = [c \in 1..MaxCommit |-> NoStats]
   /\ tnotes' = [c \in 1..MaxCommit |-> IF Ev.init = "base" /\ c = 1 THEN BaseNote ELSE NoNote]
   /\ viol' = {} /\ drift' = {} /\ taint' = {}
   /\ hist' = hist /\ l' = l + 1
@@ -1043,6 +1131,7 @@ TrDiscard   == IsEv("Discard") /\ DiscardPaths(SetOf(Ev.files), Ev.how)
 TrStashPush == IsEv("StashPush") /\ StashPush
 TrStashPop  == IsEv("StashPop") /\ StashPop
 
+TrMv         == IsEv("Mv") /\ Mv(Ev.f, Ev.g)
 TrReadOnly   == IsEv("ReadOnly") /\ ReadOnly(Ev.cmd)
 TrCkptRepeat == IsEv("CkptRepeat") /\ CkptRepeat
 
@@ -1055,7 +1144,7 @@ TrSquash == IsEv("MergeSquash") /\ MergeSquash
 
 TraceNext ==
   /\ ~Gen
-  /\ \/ TrBranch \/ TrSwitch \/ TrRebase \/ TrCherry \/ TrAmend \/ TrSquash
+  /\ \/ TrMv \/ TrBranch \/ TrSwitch \/ TrRebase \/ TrCherry \/ TrAmend \/ TrSquash
      \/ TrReadOnly \/ TrCkptRepeat
      \/ TrReset \/ TrEdit \/ TrCkpt \/ TrAdd \/ TrCommit
      \/ TrResetHard \/ TrResetKeep \/ TrDiscard \/ TrStashPush \/ TrStashPop
